@@ -638,30 +638,299 @@ Proof.
     rewrite firstn_O, skipn_O, app_nil_r. exists r. auto.
 Qed.
 
+Lemma bytes_of_le_msr : forall r, (length (bytes_of r) <= msr r)%nat.
+Proof. intros r. unfold bytes_of, msr. rewrite app_length. lia. Qed.
+
+(* ---------- the loop of read_line: measure ---------- *)
+
+Lemma line_step_msr : forall fuel e c buf k buf' c',
+  line_step fuel e c buf = IoDone (k, buf', c') ->
+  (cmsr c' + length buf' <= cmsr c + length buf)%nat /\ (length buf <= length buf')%nat.
+Proof.
+  intros fuel e c buf k buf' c' H. unfold line_step in H. destruct e.
+  - inversion H; subst. lia.
+  - destruct (Nat.even (length buf)).
+    + destruct (nth_error buf (length buf - 2)); [inversion H; subst; lia|discriminate].
+    + inversion H; subst. lia.
+  - destruct (Nat.even (length buf)); [inversion H; subst; lia|].
+    destruct (read_extra fuel c buf) as [[b c2]| | |] eqn:He; cbn [io_bind] in H; try discriminate.
+    inversion H; subst. exact (read_extra_msr _ _ _ _ _ He).
+Qed.
+
+Lemma read_line_loop_msr : forall n fuel e c buf buf' c',
+  read_line_loop n fuel e c buf = IoDone (buf', c') ->
+  (cmsr c' + length buf' <= cmsr c + length buf)%nat /\ (length buf <= length buf')%nat.
+Proof.
+  induction n as [|n IH]; intros fuel e c buf buf' c' H; [discriminate|]. cbn [read_line_loop] in H.
+  destruct (chain_read_until fuel LF c buf) as [[buf1 c1]| | |] eqn:Hr; cbn [io_bind] in H; try discriminate.
+  apply chain_read_until_msr in Hr.
+  destruct ((length buf <? length buf1)%nat && ends_with_lf buf1).
+  - destruct (line_step fuel e c1 buf1) as [[[k buf2] c2]| | |] eqn:Hs; cbn [io_bind] in H; try discriminate.
+    apply line_step_msr in Hs. destruct k.
+    + inversion H; subst. lia.
+    + apply IH in H. lia.
+  - inversion H; subst. lia.
+Qed.
+
 Lemma read_line_msr : forall fuel d l d',
   read_line fuel d = IoDone (Some l, d') -> (cmsr (inner d') < cmsr (inner d))%nat.
 Proof.
   intros fuel d l d' H. unfold read_line in H.
-  destruct (chain_read_until fuel LF (inner d) []) as [[buf r]| | |] eqn:Hr; try discriminate.
-  apply chain_read_until_msr in Hr. cbn [io_bind length] in *.
+  destruct (read_line_loop fuel fuel (enc d) (inner d) []) as [[buf c]| | |] eqn:Hr; try discriminate.
+  apply read_line_loop_msr in Hr. cbn [io_bind length] in *.
   destruct buf as [|x t]; [discriminate|]. cbn [length] in Hr.
-  destruct (enc_is_le (enc d) && ends_with_lf (x :: t)).
-  - destruct (read_extra fuel r (x :: t)) as [[b r2]| | |] eqn:He; try discriminate.
-    apply read_extra_msr in He. cbn [io_bind] in H. rewrite curr_line_dec in H. cbn [io_bind] in H.
-    inversion H; subst. cbn [inner length] in *. lia.
-  - cbn [io_bind] in H. rewrite curr_line_dec in H. cbn [io_bind] in H.
-    inversion H; subst. cbn [inner]. lia.
+  rewrite curr_line_dec in H. cbn [io_bind] in H. inversion H; subst. cbn [inner]. lia.
 Qed.
+
+(* ---------- the reference cut of a UTF-16 stream ---------- *)
+
+Definition nolf (l : list Z) : Prop := Forall (fun c => c <> LF) l.
+
+Lemma split_line_decomp : forall l : list Z,
+  (nolf l /\ split_line LF l = (l, [])) \/
+  (exists p q, l = p ++ LF :: q /\ nolf p /\ split_line LF l = (p ++ [LF], q)).
+Proof.
+  induction l as [|x t IH].
+  - left. split; [constructor|reflexivity].
+  - cbn [split_line]. destruct (Z.eqb_spec x LF) as [E|E].
+    + right. exists [], t. subst x. repeat split. constructor.
+    + destruct IH as [(N & H)|(p & q & Ht & N & H)].
+      * left. rewrite H. split; [constructor; assumption|reflexivity].
+      * right. exists (x :: p), q. rewrite H, Ht. repeat split. constructor; assumption.
+Qed.
+
+Lemma ends_with_lf_snoc : forall a x, ends_with_lf (a ++ [x]) = (x =? LF).
+Proof. intros. unfold ends_with_lf. rewrite last_opt_app_cons. reflexivity. Qed.
+
+Lemma ends_with_lf_nolf : forall a r, nolf r -> r <> [] -> ends_with_lf (a ++ r) = false.
+Proof.
+  intros a r N Hr. destruct (@exists_last _ r Hr) as (r0 & x & ->).
+  rewrite app_assoc, ends_with_lf_snoc. apply Forall_app in N. destruct N as (_ & N).
+  inversion N; subst. apply Z.eqb_neq. assumption.
+Qed.
+
+(* the scanning state: None at a unit boundary, Some x inside a unit *)
+Definition st_step (st : option Z) (y : Z) : option Z :=
+  match st with None => Some y | Some _ => None end.
+Fixpoint st_after (st : option Z) (q : bytes) : option Z :=
+  match q with [] => st | y :: t => st_after (st_step st y) t end.
+Definition st_of (buf : bytes) : option Z := st_after None buf.
+
+Lemma st_after_app : forall a b st, st_after st (a ++ b) = st_after (st_after st a) b.
+Proof. induction a as [|y a IH]; intros b st; [reflexivity|]. cbn [app st_after]. apply IH. Qed.
+
+Lemma st_of_app : forall a b, st_of (a ++ b) = st_after (st_of a) b.
+Proof. intros. apply st_after_app. Qed.
+
+Lemma st_of_spec : forall b : bytes,
+  (Nat.even (length b) = true /\ st_of b = None) \/
+  (Nat.even (length b) = false /\ exists x, st_of b = Some x /\ nth_error b (length b - 1) = Some x).
+Proof.
+  induction b as [|y b IH] using rev_ind; [left; split; reflexivity|].
+  rewrite app_length, st_of_app. cbn [length]. rewrite Nat.add_1_r, Nat.even_succ, <- Nat.negb_even.
+  destruct IH as [(E & Hs)|(E & x & Hs & N)]; rewrite E, Hs; cbn [negb st_after st_step].
+  - right. split; [reflexivity|]. exists y. split; [reflexivity|].
+    replace (S (length b) - 1)%nat with (length b) by lia. rewrite nth_error_app2 by lia.
+    rewrite Nat.sub_diag. reflexivity.
+  - left. split; reflexivity.
+Qed.
+
+Lemma scan16_length : forall le b st,
+  (length (fst (scan16 le st b)) + length (snd (scan16 le st b)) = length b)%nat.
+Proof.
+  induction b as [|y t IH]; intros st; cbn [scan16]; [reflexivity|]. destruct st as [x|].
+  - destruct (is_lf_unit le x y); cbn [fst snd length]; [lia|].
+    specialize (IH None). destruct (scan16 le None t); cbn [fst snd length] in *; lia.
+  - specialize (IH (Some y)). destruct (scan16 le (Some y) t); cbn [fst snd length] in *; lia.
+Qed.
+
+Lemma scan16_nil_iff : forall le st b, fst (scan16 le st b) = [] <-> b = [].
+Proof.
+  intros le st b; split; intros H; [|subst; reflexivity].
+  destruct b as [|y t]; [reflexivity|]. cbn [scan16] in H. destruct st as [x|].
+  - destruct (is_lf_unit le x y); [discriminate|]. destruct (scan16 le None t); discriminate.
+  - destruct (scan16 le (Some y) t); discriminate.
+Qed.
+
+(* a stretch without any byte 0x0A cannot end a line: BE needs the byte itself,
+   LE needs it as the first byte of the unit *)
+Lemma scan16_app_be : forall q st m, nolf q ->
+  scan16 false st (q ++ m) =
+  (q ++ fst (scan16 false (st_after st q) m), snd (scan16 false (st_after st q) m)).
+Proof.
+  induction q as [|y t IH]; intros st m N; cbn [app st_after].
+  - destruct (scan16 false st m); reflexivity.
+  - inversion N as [|y' t' Ny Nt]; subst. cbn [scan16]. destruct st as [x|]; cbn [st_step].
+    + unfold is_lf_unit. replace (y =? LF) with false by (symmetry; apply Z.eqb_neq; exact Ny).
+      rewrite Bool.andb_false_r. rewrite (IH None m Nt). reflexivity.
+    + rewrite (IH (Some y) m Nt). reflexivity.
+Qed.
+
+Lemma scan16_app_le : forall q st m, nolf q -> st <> Some LF ->
+  scan16 true st (q ++ m) =
+  (q ++ fst (scan16 true (st_after st q) m), snd (scan16 true (st_after st q) m)).
+Proof.
+  induction q as [|y t IH]; intros st m N Hst; cbn [app st_after].
+  - destruct (scan16 true st m); reflexivity.
+  - inversion N as [|y' t' Ny Nt]; subst. cbn [scan16]. destruct st as [x|]; cbn [st_step].
+    + unfold is_lf_unit. replace (x =? LF) with false by (symmetry; apply Z.eqb_neq; congruence).
+      cbn [andb]. rewrite (IH None m Nt) by discriminate. reflexivity.
+    + rewrite (IH (Some y) m Nt) by congruence. reflexivity.
+Qed.
+
+(* ... so the first byte 0x0A of the rest decides, by its position in its unit
+   and by the other byte of that unit *)
+Lemma scan_be_cut : forall buf q r, nolf q ->
+  scan16 false (st_of buf) (q ++ LF :: r) =
+  match st_of (buf ++ q) with
+  | None => (q ++ LF :: fst (scan16 false (Some LF) r), snd (scan16 false (Some LF) r))
+  | Some x => if x =? 0 then (q ++ [LF], r)
+              else (q ++ LF :: fst (scan16 false None r), snd (scan16 false None r))
+  end.
+Proof.
+  intros buf q r N. rewrite (scan16_app_be q _ _ N), <- st_of_app.
+  destruct (st_of (buf ++ q)) as [x|]; cbn [scan16 fst snd].
+  - unfold is_lf_unit. rewrite Z.eqb_refl, Bool.andb_true_r.
+    destruct (x =? 0); [reflexivity|]. destruct (scan16 false None r); reflexivity.
+  - destruct (scan16 false (Some LF) r); reflexivity.
+Qed.
+
+Lemma scan_le_cut : forall buf q r, nolf q -> st_of buf = None ->
+  scan16 true (st_of buf) (q ++ LF :: r) =
+  match st_of (buf ++ q) with
+  | Some _ => (q ++ LF :: fst (scan16 true None r), snd (scan16 true None r))
+  | None =>
+      match r with
+      | [] => (q ++ [LF], [])
+      | h :: r2 => if h =? 0 then (q ++ [LF; h], r2)
+                   else (q ++ LF :: h :: fst (scan16 true None r2), snd (scan16 true None r2))
+      end
+  end.
+Proof.
+  intros buf q r N Hb. rewrite (scan16_app_le q _ _ N) by (rewrite Hb; discriminate). rewrite <- st_of_app.
+  destruct (st_of (buf ++ q)) as [x|]; cbn [scan16 fst snd].
+  - unfold is_lf_unit. change (LF =? 0) with false. rewrite Bool.andb_false_r.
+    destruct (scan16 true None r); reflexivity.
+  - destruct r as [|h r2]; cbn [scan16]; [reflexivity|].
+    unfold is_lf_unit. rewrite Z.eqb_refl. cbn [andb].
+    destruct (h =? 0); [reflexivity|]. destruct (scan16 true None r2); reflexivity.
+Qed.
+
+Lemma raw_split_length : forall e b,
+  (length (fst (raw_split e b)) + length (snd (raw_split e b)) = length b)%nat.
+Proof. intros [] b; cbn [raw_split]; [apply split_line_length|apply scan16_length|apply scan16_length]. Qed.
 
 Lemma next_raw_length : forall e b l rem,
   next_raw e b = Some (l, rem) -> (length rem < length b)%nat.
 Proof.
-  intros e b l rem H. unfold next_raw in H. pose proof (split_line_length LF b) as L.
-  destruct (split_line LF b) as [l0 r0]. cbn [fst snd] in L.
-  destruct l0 as [|x t]; [discriminate|]. cbn [length] in L.
-  destruct (enc_is_le e && ends_with_lf (x :: t)).
-  - destruct r0 as [|y r1]; inversion H; subst; cbn [length] in *; lia.
-  - inversion H; subst. lia.
+  intros e b l rem H. unfold next_raw in H. pose proof (raw_split_length e b) as L.
+  destruct (raw_split e b) as [l0 r0]. cbn [fst snd] in L.
+  destruct l0 as [|x t]; [discriminate|]. inversion H; subst. cbn [length] in L. lia.
+Qed.
+
+(* ---------- the loop of read_line on a faultless schedule ---------- *)
+
+(* how the cut goes on behind what read_buf already holds *)
+Definition cont (e : encoding) (buf rest : bytes) : bytes * bytes :=
+  match e with
+  | Utf8 => split_line LF rest
+  | Utf16LE => scan16 true (st_of buf) rest
+  | Utf16BE => scan16 false (st_of buf) rest
+  end.
+(* UTF-16LE re-enters the loop at unit boundaries only *)
+Definition loop_inv (e : encoding) (buf : bytes) : Prop :=
+  match e with Utf16LE => st_of buf = None | _ => True end.
+
+Lemma cont_nolf : forall e buf r, nolf r -> loop_inv e buf -> cont e buf r = (r, []).
+Proof.
+  intros e buf r N I. destruct e; cbn [cont loop_inv] in *.
+  - destruct (split_line_decomp r) as [(_ & H)|(p & q & Hr & _ & _)]; [exact H|].
+    subst r. apply Forall_app in N. destruct N as (_ & N). inversion N; subst. contradiction.
+  - rewrite <- (app_nil_r r) at 1. rewrite (scan16_app_be r _ _ N). cbn [scan16 fst snd].
+    rewrite app_nil_r. reflexivity.
+  - rewrite <- (app_nil_r r) at 1. rewrite (scan16_app_le r _ _ N) by (rewrite I; discriminate).
+    cbn [scan16 fst snd]. rewrite app_nil_r. reflexivity.
+Qed.
+
+Lemma cond_nolf : forall buf r, nolf r ->
+  (length buf <? length (buf ++ r))%nat && ends_with_lf (buf ++ r) = false.
+Proof.
+  intros buf r N. destruct r as [|y t].
+  - rewrite app_nil_r, Nat.ltb_irrefl. reflexivity.
+  - rewrite (ends_with_lf_nolf buf (y :: t) N) by discriminate. apply Bool.andb_false_r.
+Qed.
+
+Lemma cond_lf : forall buf q,
+  (length buf <? length (buf ++ q ++ [LF]))%nat && ends_with_lf (buf ++ q ++ [LF]) = true.
+Proof.
+  intros buf q. rewrite (app_assoc buf q [LF]), ends_with_lf_snoc, Z.eqb_refl, Bool.andb_true_r.
+  apply Nat.ltb_lt. rewrite !app_length. cbn [length]. lia.
+Qed.
+
+Lemma pushed_none : forall buf : bytes, pushed buf buf = None.
+Proof. intros. unfold pushed. apply nth_error_None. lia. Qed.
+Lemma pushed_some : forall (buf : bytes) h, pushed buf (buf ++ [h]) = Some h.
+Proof. intros. unfold pushed. rewrite nth_error_app2 by lia. rewrite Nat.sub_diag. reflexivity. Qed.
+
+Lemma read_line_loop_faultless : forall n fuel e c buf,
+  faultless (sched (second c)) -> (cmsr c < fuel)%nat -> (length (cbytes c) < n)%nat -> loop_inv e buf ->
+  exists c', read_line_loop n fuel e c buf = IoDone (buf ++ fst (cont e buf (cbytes c)), c') /\
+             cbytes c' = snd (cont e buf (cbytes c)) /\ faultless (sched (second c')).
+Proof.
+  induction n as [|n IH]; intros fuel e c buf F M Ln I; [lia|]. cbn [read_line_loop].
+  destruct (chain_read_until_faultless fuel LF c buf F M) as (c1 & Hr & Hb & Fr).
+  pose proof (chain_read_until_msr _ _ _ _ _ _ Hr) as (M1 & _). rewrite Hr. cbn [io_bind].
+  destruct (split_line_decomp (cbytes c)) as [(N & Hs)|(q & r & Hc & N & Hs)]; rewrite Hs in *; cbn [fst snd] in *.
+  - (* the rest holds no byte 0x0A: the stream ends with this line *)
+    rewrite (cond_nolf buf _ N), (cont_nolf e buf _ N I). cbn [fst snd]. exists c1. auto.
+  - rewrite cond_lf. rewrite Hc in Ln |- *. rewrite app_length in Ln. cbn [length] in Ln.
+    assert (E1 : buf ++ q ++ [LF] = (buf ++ q) ++ [LF]) by apply app_assoc.
+    assert (L1 : length ((buf ++ q) ++ [LF]) = S (length (buf ++ q))) by (rewrite app_length; cbn [length]; lia).
+    rewrite app_length in M1.
+    unfold line_step. destruct e; cbn [cont loop_inv] in *.
+    + (* UTF-8 *)
+      cbn [io_bind]. exists c1. rewrite <- Hc, Hs. cbn [fst snd]. auto.
+    + (* UTF-16BE *)
+      rewrite (scan_be_cut buf q r N). rewrite E1, L1, Nat.even_succ, <- Nat.negb_even.
+      destruct (st_of_spec (buf ++ q)) as [(Ev & Sb)|(Ev & x & Sb & Nx)]; rewrite Ev, Sb; cbn [negb io_bind].
+      * destruct (IH fuel Utf16BE c1 ((buf ++ q) ++ [LF]) Fr) as (c' & H & Hb' & F'); [lia|rewrite Hb; lia|exact Logic.I|].
+        cbn [cont] in H, Hb'. rewrite st_of_app, Sb in H, Hb'. cbn [st_after st_step] in H, Hb'. rewrite Hb in H, Hb'.
+        exists c'. rewrite H. cbn [fst snd]. rewrite <- !app_assoc. auto.
+      * replace (S (length (buf ++ q)) - 2)%nat with (length (buf ++ q) - 1)%nat by lia.
+        assert (Lp : (length (buf ++ q) - 1 < length (buf ++ q))%nat).
+        { destruct (buf ++ q); [discriminate Ev|cbn [length]; lia]. }
+        rewrite nth_error_app1 by exact Lp. rewrite Nx. destruct (x =? 0); cbn [io_bind].
+        -- exists c1. cbn [fst snd]. rewrite <- !app_assoc. auto.
+        -- destruct (IH fuel Utf16BE c1 ((buf ++ q) ++ [LF]) Fr) as (c' & H & Hb' & F'); [lia|rewrite Hb; lia|exact Logic.I|].
+           cbn [cont] in H, Hb'. rewrite st_of_app, Sb in H, Hb'. cbn [st_after st_step] in H, Hb'. rewrite Hb in H, Hb'.
+           exists c'. rewrite H. cbn [fst snd]. rewrite <- !app_assoc. auto.
+    + (* UTF-16LE *)
+      rewrite (scan_le_cut buf q r N I). rewrite E1, L1, Nat.even_succ, <- Nat.negb_even.
+      destruct (st_of_spec (buf ++ q)) as [(Ev & Sb)|(Ev & x & Sb & Nx)]; rewrite Ev, Sb; cbn [negb io_bind].
+      * destruct (read_extra_faultless fuel c1 ((buf ++ q) ++ [LF]) Fr) as (c2 & He & Hb2 & F2); [lia|].
+        pose proof (read_extra_msr _ _ _ _ _ He) as (M2 & _).
+        rewrite He. cbn [io_bind]. rewrite Hb in *. destruct r as [|h r2]; cbn [tl] in *.
+        -- rewrite pushed_none. cbn [io_bind]. exists c2. cbn [fst snd]. rewrite <- !app_assoc. auto.
+        -- rewrite pushed_some. rewrite !app_length in M2. cbn [length] in *. destruct h as [|p|p]; cbn [Z.eqb io_bind].
+           ++ exists c2. cbn [fst snd]. rewrite <- !app_assoc. auto.
+           ++ destruct (IH fuel Utf16LE c2 (((buf ++ q) ++ [LF]) ++ [Zpos p]) F2) as (c' & H & Hb' & F'); [lia|rewrite Hb2; lia| |].
+              { cbn [loop_inv]. rewrite st_of_app, st_of_app, Sb. reflexivity. }
+              cbn [cont] in H, Hb'. rewrite st_of_app, st_of_app, Sb in H, Hb'. cbn [st_after st_step] in H, Hb'. rewrite Hb2 in H, Hb'.
+              exists c'. rewrite H. cbn [fst snd]. rewrite <- !app_assoc. auto.
+           ++ destruct (IH fuel Utf16LE c2 (((buf ++ q) ++ [LF]) ++ [Zneg p]) F2) as (c' & H & Hb' & F'); [lia|rewrite Hb2; lia| |].
+              { cbn [loop_inv]. rewrite st_of_app, st_of_app, Sb. reflexivity. }
+              cbn [cont] in H, Hb'. rewrite st_of_app, st_of_app, Sb in H, Hb'. cbn [st_after st_step] in H, Hb'. rewrite Hb2 in H, Hb'.
+              exists c'. rewrite H. cbn [fst snd]. rewrite <- !app_assoc. auto.
+      * destruct (IH fuel Utf16LE c1 ((buf ++ q) ++ [LF]) Fr) as (c' & H & Hb' & F'); [lia|rewrite Hb; lia| |].
+        { cbn [loop_inv]. rewrite st_of_app, Sb. reflexivity. }
+        cbn [cont] in H, Hb'. rewrite st_of_app, Sb in H, Hb'. cbn [st_after st_step] in H, Hb'. rewrite Hb in H, Hb'.
+        exists c'. rewrite H. cbn [fst snd]. rewrite <- !app_assoc. auto.
+Qed.
+
+Lemma cbytes_le_cmsr : forall c, (length (cbytes c) <= cmsr c)%nat.
+Proof.
+  intros [p dn r]. unfold cbytes, cmsr. cbn [done_first pending second].
+  pose proof (bytes_of_le_msr r). destruct dn; [lia|]. rewrite app_length. lia.
 Qed.
 
 Lemma read_line_faultless : forall fuel d,
@@ -673,18 +942,15 @@ Lemma read_line_faultless : forall fuel d,
                  cbytes c' = rem /\ faultless (sched (second c'))
   end.
 Proof.
-  intros fuel d F M.
-  destruct (chain_read_until_faultless fuel LF (inner d) [] F M) as (c1 & Hr & Hb & Fr).
-  pose proof (chain_read_until_msr _ _ _ _ _ _ Hr) as (M1 & _).
-  unfold next_raw, read_line. rewrite Hr.
-  destruct (split_line LF (cbytes (inner d))) as [l rem]. cbn [fst snd app io_bind] in *.
+  intros fuel d F M. pose proof (cbytes_le_cmsr (inner d)) as Lc.
+  destruct (read_line_loop_faultless fuel fuel (enc d) (inner d) [] F M) as (c1 & Hr & Hb & Fr); [lia| |].
+  { destruct (enc d); exact Logic.I || reflexivity. }
+  assert (Ec : cont (enc d) [] (cbytes (inner d)) = raw_split (enc d) (cbytes (inner d))) by (destruct (enc d); reflexivity).
+  rewrite Ec in *. unfold next_raw, read_line. rewrite Hr.
+  destruct (raw_split (enc d) (cbytes (inner d))) as [l rem]. cbn [fst snd app io_bind] in *.
   destruct l as [|x t].
   - eexists; reflexivity.
-  - destruct (enc_is_le (enc d) && ends_with_lf (x :: t)).
-    + destruct (read_extra_faultless fuel c1 (x :: t) Fr) as (c2 & He & Hb2 & F2); [cbn [length] in M1; lia|].
-      rewrite He. rewrite Hb in Hb2. rewrite Hb.
-      destruct rem as [|y rem']; cbn [io_bind tl] in *; rewrite curr_line_dec; cbn [io_bind]; exists c2; auto.
-    + cbn [io_bind]. rewrite curr_line_dec. cbn [io_bind]. exists c1. auto.
+  - rewrite curr_line_dec. cbn [io_bind]. exists c1. auto.
 Qed.
 
 Lemma lines_loop_faultless : forall n m fuel d,
@@ -703,8 +969,6 @@ Proof.
   - destruct X as (d' & Hl). rewrite Hl. reflexivity.
 Qed.
 
-Lemma bytes_of_le_msr : forall r, (length (bytes_of r) <= msr r)%nat.
-Proof. intros r. unfold bytes_of, msr. rewrite app_length. lia. Qed.
 
 (* T08, full strength: for EVERY reader state with a faultless schedule --
    any chunking (first chunks of one or two bytes, single-byte delivery, a BOM
@@ -862,21 +1126,60 @@ Proof.
   - right. rewrite bom_finish_eq. eexists _, _, _. split; [reflexivity|exact W].
 Qed.
 
+(* the index read_buf[len - 2] of the UTF-16BE arm is in bounds *)
+Lemma idx2_some : forall buf : bytes, ends_with_lf buf = true ->
+  exists b, nth_error buf (length buf - 2) = Some b.
+Proof.
+  intros buf H. destruct (nth_error buf (length buf - 2)) eqn:E; [eauto|].
+  apply nth_error_None in E. destruct buf; [discriminate H|cbn [length] in E; lia].
+Qed.
+
+Lemma line_step_will_fail : forall k fuel e c buf,
+  will_fail k (second c) -> (cmsr c < fuel)%nat -> ends_with_lf buf = true ->
+  line_step fuel e c buf = IoErr k \/
+  exists f buf' c', line_step fuel e c buf = IoDone (f, buf', c') /\ will_fail k (second c').
+Proof.
+  intros k fuel e c buf W M El. unfold line_step. destruct e.
+  - right. eexists _, _, _. split; [reflexivity|exact W].
+  - destruct (Nat.even (length buf)).
+    + destruct (idx2_some buf El) as (b & ->). right. eexists _, _, _. split; [reflexivity|exact W].
+    + right. eexists _, _, _. split; [reflexivity|exact W].
+  - destruct (Nat.even (length buf)); [right; eexists _, _, _; split; [reflexivity|exact W]|].
+    destruct (read_extra_will_fail k fuel c buf W M) as [E|(b & c2 & E & W2)]; rewrite E; cbn [io_bind].
+    + left; reflexivity.
+    + right. eexists _, _, _. split; [reflexivity|exact W2].
+Qed.
+
+Lemma read_line_loop_will_fail : forall k n fuel e c buf,
+  will_fail k (second c) -> (cmsr c < fuel)%nat -> (cmsr c < n)%nat ->
+  read_line_loop n fuel e c buf = IoErr k \/
+  exists buf' c', read_line_loop n fuel e c buf = IoDone (buf', c') /\ will_fail k (second c') /\ buf' <> [].
+Proof.
+  induction n as [|n IH]; intros fuel e c buf W M Mn; [lia|]. cbn [read_line_loop].
+  destruct (chain_read_until_will_fail k fuel LF c buf W M) as [E|(buf1 & c1 & E & W1 & Nb)]; rewrite E; cbn [io_bind].
+  - left; reflexivity.
+  - pose proof (chain_read_until_msr _ _ _ _ _ _ E) as (M1 & _).
+    destruct ((length buf <? length buf1)%nat && ends_with_lf buf1) eqn:C.
+    + apply Bool.andb_true_iff in C. destruct C as (Cl & Ce). apply Nat.ltb_lt in Cl.
+      destruct (line_step_will_fail k fuel e c1 buf1 W1) as [E2|(f & buf2 & c2 & E2 & W2)]; [lia|exact Ce| |]; rewrite E2; cbn [io_bind].
+      * left; reflexivity.
+      * pose proof (line_step_msr _ _ _ _ _ _ _ E2) as (M2 & L2). destruct f.
+        -- right. eexists _, _. split; [reflexivity|]. split; [exact W2|].
+           destruct buf2; [destruct buf1; [contradiction|cbn [length] in L2; lia]|discriminate].
+        -- apply IH; [exact W2|lia|lia].
+    + right. eexists _, _. split; [reflexivity|]. split; assumption.
+Qed.
+
 Lemma read_line_will_fail : forall k fuel d,
   will_fail k (second (inner d)) -> (cmsr (inner d) < fuel)%nat ->
   read_line fuel d = IoErr k \/
   exists l d', read_line fuel d = IoDone (Some l, d') /\ will_fail k (second (inner d')).
 Proof.
   intros k fuel d W M. unfold read_line.
-  destruct (chain_read_until_will_fail k fuel LF (inner d) [] W M) as [E|(buf & c1 & E & W1 & Nb)]; rewrite E.
+  destruct (read_line_loop_will_fail k fuel fuel (enc d) (inner d) [] W M M) as [E|(buf & c1 & E & W1 & Nb)]; rewrite E.
   - left; reflexivity.
-  - pose proof (chain_read_until_msr _ _ _ _ _ _ E) as (M1 & _). cbn [io_bind length] in *.
-    destruct buf as [|x t]; [contradiction|].
-    destruct (enc_is_le (enc d) && ends_with_lf (x :: t)).
-    + destruct (read_extra_will_fail k fuel c1 (x :: t) W1) as [E2|(b & c2 & E2 & W2)]; [lia| |]; rewrite E2.
-      * left; reflexivity.
-      * right. cbn [io_bind]. rewrite curr_line_dec. cbn [io_bind]. eexists _, _. split; [reflexivity|exact W2].
-    + right. cbn [io_bind]. rewrite curr_line_dec. cbn [io_bind]. eexists _, _. split; [reflexivity|exact W1].
+  - cbn [io_bind]. destruct buf as [|x t]; [contradiction|].
+    right. rewrite curr_line_dec. cbn [io_bind]. eexists _, _. split; [reflexivity|exact W1].
 Qed.
 
 Lemma lines_loop_will_fail : forall k n fuel d,
@@ -1069,29 +1372,63 @@ Qed.
 Definition dec_sim (x y : option str * decoder) : Prop :=
   fst x = fst y /\ csim (inner (snd x)) (inner (snd y)) /\ enc (snd x) = enc (snd y).
 
+Lemma line_step_sim : forall f1 f2 e c1 c2 buf,
+  csim c1 c2 -> (cmsr c1 < f1)%nat -> (cmsr c2 < f2)%nat ->
+  io_rel cpair_sim (line_step f1 e c1 buf) (line_step f2 e c2 buf).
+Proof.
+  intros f1 f2 e c1 c2 buf Sm M1 M2. unfold line_step. destruct e.
+  - cbn [io_rel]. split; [reflexivity|exact Sm].
+  - destruct (Nat.even (length buf)).
+    + destruct (nth_error buf (length buf - 2)); cbn [io_rel]; [split; [reflexivity|exact Sm]|reflexivity].
+    + cbn [io_rel]. split; [reflexivity|exact Sm].
+  - destruct (Nat.even (length buf)); [cbn [io_rel]; split; [reflexivity|exact Sm]|].
+    pose proof (read_extra_sim f1 f2 c1 c2 buf Sm M1 M2) as Y.
+    destruct (read_extra f1 c1 buf) as [[b1 q1]| | |];
+      destruct (read_extra f2 c2 buf) as [[b2 q2]| | |]; cbn [io_rel io_bind] in *; try contradiction; try assumption.
+    destruct Y as (Eb & Sq). cbn [fst snd] in *. subst b2. split; [reflexivity|exact Sq].
+Qed.
+
+Lemma read_line_loop_sim : forall n1 n2 f1 f2 e c1 c2 buf,
+  csim c1 c2 -> (cmsr c1 < f1)%nat -> (cmsr c2 < f2)%nat -> (cmsr c1 < n1)%nat -> (cmsr c2 < n2)%nat ->
+  io_rel cpair_sim (read_line_loop n1 f1 e c1 buf) (read_line_loop n2 f2 e c2 buf).
+Proof.
+  induction n1 as [|n1 IH]; intros n2 f1 f2 e c1 c2 buf Sm M1 M2 N1 N2; [lia|].
+  destruct n2 as [|n2]; [lia|]. cbn [read_line_loop].
+  pose proof (chain_read_until_sim f1 f2 LF c1 c2 buf Sm M1 M2) as X.
+  destruct (chain_read_until f1 LF c1 buf) as [[b1 r1]| | |] eqn:H1;
+    destruct (chain_read_until f2 LF c2 buf) as [[b2 r2]| | |] eqn:H2; cbn [io_rel io_bind] in *; try contradiction; try assumption.
+  destruct X as (Eb & S'). cbn [fst snd] in *. subst b2.
+  pose proof (chain_read_until_msr _ _ _ _ _ _ H1) as (Ma & _).
+  pose proof (chain_read_until_msr _ _ _ _ _ _ H2) as (Mb & _).
+  destruct ((length buf <? length b1)%nat && ends_with_lf b1) eqn:C.
+  - apply Bool.andb_true_iff in C. destruct C as (Cl & _). apply Nat.ltb_lt in Cl.
+    pose proof (line_step_sim f1 f2 e r1 r2 b1 S') as Y.
+    destruct (line_step f1 e r1 b1) as [[[k1 x1] q1]| | |] eqn:L1;
+      destruct (line_step f2 e r2 b1) as [[[k2 x2] q2]| | |] eqn:L2; cbn [io_rel io_bind] in *;
+      try (exfalso; apply Y; lia); try (apply Y; lia).
+    destruct Y as (Ek & Sq); [lia|lia|]. cbn [fst snd] in *. inversion Ek; subst k2 x2.
+    pose proof (line_step_msr _ _ _ _ _ _ _ L1) as (Mc & Lc1).
+    pose proof (line_step_msr _ _ _ _ _ _ _ L2) as (Md & Lc2).
+    destruct k1.
+    + cbn [io_rel]. split; [reflexivity|exact Sq].
+    + apply IH; [exact Sq|lia..].
+  - cbn [io_rel]. split; [reflexivity|exact S'].
+Qed.
+
 Lemma read_line_sim : forall f1 f2 d1 d2,
   csim (inner d1) (inner d2) -> enc d1 = enc d2 ->
   (cmsr (inner d1) < f1)%nat -> (cmsr (inner d2) < f2)%nat ->
   io_rel dec_sim (read_line f1 d1) (read_line f2 d2).
 Proof.
-  intros f1 f2 d1 d2 S E M1 M2. unfold read_line. rewrite <- E.
-  pose proof (chain_read_until_sim f1 f2 LF _ _ [] S M1 M2) as X.
-  destruct (chain_read_until f1 LF (inner d1) []) as [[b1 r1]| | |] eqn:H1;
-    destruct (chain_read_until f2 LF (inner d2) []) as [[b2 r2]| | |] eqn:H2; cbn [io_rel] in X; try contradiction;
+  intros f1 f2 d1 d2 Sm E M1 M2. unfold read_line. rewrite <- E.
+  pose proof (read_line_loop_sim f1 f2 f1 f2 (enc d1) _ _ [] Sm M1 M2 M1 M2) as X.
+  destruct (read_line_loop f1 f1 (enc d1) (inner d1) []) as [[b1 r1]| | |] eqn:H1;
+    destruct (read_line_loop f2 f2 (enc d1) (inner d2) []) as [[b2 r2]| | |] eqn:H2; cbn [io_rel] in X; try contradiction;
     try (cbn [io_bind io_rel]; assumption).
   destruct X as (Eb & S'). cbn [fst snd] in *. subst b2.
-  pose proof (chain_read_until_msr _ _ _ _ _ _ H1) as (Ma & _).
-  pose proof (chain_read_until_msr _ _ _ _ _ _ H2) as (Mb & _).
   cbn [io_bind]. destruct b1 as [|x t].
   - cbn [io_rel]. unfold dec_sim. cbn [fst snd inner enc]. auto.
-  - destruct (enc_is_le (enc d1) && ends_with_lf (x :: t)).
-    + pose proof (read_extra_sim f1 f2 r1 r2 (x :: t) S') as Y. cbn [length] in *.
-      destruct (read_extra f1 r1 (x :: t)) as [[c1 q1]| | |];
-        destruct (read_extra f2 r2 (x :: t)) as [[c2 q2]| | |]; cbn [io_rel] in Y;
-        try (exfalso; apply Y; lia); try (cbn [io_bind io_rel]; apply Y; lia).
-      destruct Y as (Ec & Sq); [lia|lia|]. cbn [fst snd] in *. subst c2.
-      cbn [io_bind]. rewrite !curr_line_dec. cbn [io_bind io_rel]. unfold dec_sim. cbn [fst snd inner enc]. auto.
-    + cbn [io_bind]. rewrite !curr_line_dec. cbn [io_bind io_rel]. unfold dec_sim. cbn [fst snd inner enc]. auto.
+  - rewrite !curr_line_dec. cbn [io_bind io_rel]. unfold dec_sim. cbn [fst snd inner enc]. auto.
 Qed.
 
 Lemma lines_loop_sim : forall n1 n2 f1 f2 d1 d2,
@@ -1206,17 +1543,38 @@ Proof.
   - destruct (fill_buf_int_msr _ _ Hfb) as (_ & M1). apply IH. lia.
 Qed.
 
+Lemma line_step_ok : forall fuel e c buf,
+  (cmsr c < fuel)%nat -> ends_with_lf buf = true -> io_ok (line_step fuel e c buf).
+Proof.
+  intros fuel e c buf M El. unfold line_step. destruct e; [exact I| |].
+  - destruct (Nat.even (length buf)); [|exact I]. destruct (idx2_some buf El) as (b & ->). exact I.
+  - destruct (Nat.even (length buf)); [exact I|].
+    pose proof (read_extra_ok fuel c buf M) as Y.
+    destruct (read_extra fuel c buf) as [[b c2]| | |]; cbn [io_bind] in *; auto.
+Qed.
+
+(* the loop of read_line never panics (the index is in bounds) and [n] = the
+   fuel of read_line is enough: every round that goes on has consumed a byte *)
+Lemma read_line_loop_ok : forall n fuel e c buf,
+  (cmsr c < fuel)%nat -> (cmsr c < n)%nat -> io_ok (read_line_loop n fuel e c buf).
+Proof.
+  induction n as [|n IH]; intros fuel e c buf M Mn; [lia|]. cbn [read_line_loop].
+  pose proof (chain_read_until_ok fuel LF c buf M) as X.
+  destruct (chain_read_until fuel LF c buf) as [[buf1 c1]| | |] eqn:Hr; try contradiction; [|exact I].
+  pose proof (chain_read_until_msr _ _ _ _ _ _ Hr) as (M1 & _). cbn [io_bind].
+  destruct ((length buf <? length buf1)%nat && ends_with_lf buf1) eqn:C; [|exact I].
+  apply Bool.andb_true_iff in C. destruct C as (Cl & Ce). apply Nat.ltb_lt in Cl.
+  assert (Y : io_ok (line_step fuel e c1 buf1)) by (apply line_step_ok; [lia|exact Ce]).
+  destruct (line_step fuel e c1 buf1) as [[[k buf2] c2]| | |] eqn:Hs; try contradiction; cbn [io_bind]; [|exact I].
+  pose proof (line_step_msr _ _ _ _ _ _ _ Hs) as (M2 & L2).
+  destruct k; [exact I|]. apply IH; lia.
+Qed.
+
 Lemma read_line_ok : forall fuel d, (cmsr (inner d) < fuel)%nat -> io_ok (read_line fuel d).
 Proof.
-  intros fuel d M. unfold read_line. pose proof (chain_read_until_ok fuel LF (inner d) [] M) as X.
-  destruct (chain_read_until fuel LF (inner d) []) as [[buf r]| | |] eqn:Hr; try contradiction; [|exact I].
-  pose proof (chain_read_until_msr _ _ _ _ _ _ Hr) as (M1 & _). cbn [io_bind length] in *.
-  destruct buf as [|x t]; [exact I|].
-  destruct (enc_is_le (enc d) && ends_with_lf (x :: t)).
-  - pose proof (read_extra_ok fuel r (x :: t)) as Y.
-    destruct (read_extra fuel r (x :: t)) as [[b r2]| | |]; try (apply Y; lia); cbn [io_bind]; try exact I.
-    rewrite curr_line_dec. exact I.
-  - cbn [io_bind]. rewrite curr_line_dec. exact I.
+  intros fuel d M. unfold read_line. pose proof (read_line_loop_ok fuel fuel (enc d) (inner d) [] M M) as X.
+  destruct (read_line_loop fuel fuel (enc d) (inner d) []) as [[buf r]| | |] eqn:Hr; try contradiction; [|exact I].
+  cbn [io_bind]. destruct buf as [|x t]; [exact I|]. rewrite curr_line_dec. exact I.
 Qed.
 
 Lemma lines_loop_ok : forall n fuel d,
@@ -1325,19 +1683,41 @@ Proof.
 Qed.
 
 (* Decoder::read_line: an Err is a failure event of the underlying reader *)
+Lemma line_step_from_sched : forall fuel e c buf,
+  from_sched (fun y : flow * bytes * chain => second (snd y)) (second c) (line_step fuel e c buf).
+Proof.
+  intros fuel e c buf. unfold line_step. destruct e.
+  - cbn. auto.
+  - destruct (Nat.even (length buf)); [|cbn; auto]. destruct (nth_error buf (length buf - 2)); cbn; auto.
+  - destruct (Nat.even (length buf)); [cbn; auto|].
+    pose proof (read_extra_from_sched fuel c buf) as Y.
+    destruct (read_extra fuel c buf) as [[b c2]|k| |]; cbn [io_bind from_sched snd] in *; auto.
+Qed.
+
+Lemma read_line_loop_from_sched : forall n fuel e c buf,
+  from_sched (fun y : bytes * chain => second (snd y)) (second c) (read_line_loop n fuel e c buf).
+Proof.
+  induction n as [|n IH]; intros fuel e c buf; [exact I|]. cbn [read_line_loop].
+  pose proof (chain_read_until_from_sched fuel LF c buf) as X.
+  destruct (chain_read_until fuel LF c buf) as [[buf1 c1]|k| |]; cbn [io_bind from_sched snd] in *; try exact I; [|exact X].
+  destruct ((length buf <? length buf1)%nat && ends_with_lf buf1); [|exact X].
+  pose proof (line_step_from_sched fuel e c1 buf1) as Y.
+  destruct (line_step fuel e c1 buf1) as [[[f buf2] c2]|k| |]; cbn [io_bind from_sched snd] in *; try exact I; auto.
+  destruct f; [cbn [from_sched snd]; auto|].
+  specialize (IH fuel e c2 buf2).
+  destruct (read_line_loop n fuel e c2 buf2) as [[b3 c3]|k| |]; cbn [from_sched snd] in *; try exact I; auto.
+Qed.
+
+(* Decoder::read_line: an Err is a failure event of the underlying reader *)
 Lemma read_line_from_sched : forall fuel d,
   from_sched (fun x => second (inner (snd x))) (second (inner d)) (read_line fuel d).
 Proof.
   intros fuel d. unfold read_line.
-  pose proof (chain_read_until_from_sched fuel LF (inner d) []) as X.
-  destruct (chain_read_until fuel LF (inner d) []) as [[buf c]|k| |]; cbn [io_bind from_sched snd] in *; try exact I;
+  pose proof (read_line_loop_from_sched fuel fuel (enc d) (inner d) []) as X.
+  destruct (read_line_loop fuel fuel (enc d) (inner d) []) as [[buf c]|k| |]; cbn [io_bind from_sched snd] in *; try exact I;
     [|exact X].
   destruct buf as [|x t]; [exact X|].
-  destruct (enc_is_le (enc d) && ends_with_lf (x :: t)).
-  - pose proof (read_extra_from_sched fuel c (x :: t)) as Y.
-    destruct (read_extra fuel c (x :: t)) as [[b c2]|k| |]; cbn [io_bind from_sched snd] in *; try exact I; auto.
-    rewrite curr_line_dec. cbn [io_bind from_sched snd inner]. auto.
-  - cbn [io_bind]. rewrite curr_line_dec. cbn [io_bind from_sched snd inner]. exact X.
+  rewrite curr_line_dec. cbn [io_bind from_sched snd inner]. exact X.
 Qed.
 
 Theorem read_line_err_from_reader : forall fuel d k,
